@@ -51,7 +51,9 @@ def v_walk(top, topdown=True, followlinks=False):
     files = list(files)
     yield top, subdirs, files
     for d in subdirs:            # honours in-place edits of `subdirs`, like the real os.walk
-        yield from v_walk(pp.join(top, d))
+        if not followlinks and _abs(pp.join(top, d)) in VFS.links:
+            continue             # a symbolic link to a directory is listed, but entered only when links are followed
+        yield from v_walk(pp.join(top, d), topdown, followlinks)
 
 
 class Ent:
